@@ -22,10 +22,11 @@ from sim.props.ahbcommon import (
     gen_validation_ahb,
     gen_world,
     project,
+    second_validation,
     shrink_validation,
     summarise_validation,
 )
-from sim.props.common import LIVENESS_ERRORS, base_verdict, fail, liveness_verdict, strip_msg
+from sim.props.common import LIVENESS_ERRORS, base_verdict, clone, fail, liveness_verdict, strip_msg
 from sim.runner import pristine
 from sim.world import run_requests
 
@@ -109,7 +110,10 @@ def generate(seed, tier="quick"):
                 ahb = {"lines": [rnd.choice(segments)]}
     profile = rnd.choice([p for p in PROFILES if p != "zero"] * 3 + ["zero"])
     request = {"rid": "r0", "cer": cer, "op": {"entry": entry, "ahb": ahb, "soll": rnd.random() < 0.5}}
-    return {"property": PROP_ID, "seed": seed, "profile": profile, "world": world, "requests": [request]}
+    requests = [request]
+    if rnd.random() < 0.3:
+        requests.append(second_validation(rnd, request))
+    return {"property": PROP_ID, "seed": seed, "profile": profile, "world": world, "requests": requests}
 
 
 summarise = summarise_validation
@@ -117,40 +121,59 @@ size = ahb_size
 
 
 def shrink(scenario):
+    requests = scenario["requests"]
+    if len(requests) > 1:
+        for index in range(len(requests)):
+            candidate = clone(scenario)
+            del candidate["requests"][index]
+            yield candidate
+        for index, request in enumerate(requests):
+            if request.get("start"):
+                candidate = clone(scenario)
+                candidate["requests"][index]["start"] = 0
+                yield candidate
+        # the same structural shrink applied to all validations at once (they share the AHB)
+        for candidate in shrink_validation(dict(scenario, requests=[requests[0]])):
+            first = candidate["requests"][0]
+            others = []
+            for other in requests[1:]:
+                other = clone(other)
+                other["op"]["ahb"] = clone(first["op"]["ahb"])
+                others.append(other)
+            yield dict(candidate, requests=[first] + others)
+        return
     yield from shrink_validation(scenario)
-    op = scenario["requests"][0]["op"]
-    if op["entry"] == "level" and op["ahb"]["lines"][0]["t"] == "g":
-        pass
 
 
 # ------------------------------------------------------------------------------------------------------ oracle
-def execute(scenario):
-    request = scenario["requests"][0]
+def _judge(request, outcome, evaluations, verdict):
     op = request["op"]
-    expressions = [n["e"] for n, _ in walk(op["ahb"]) if n["t"] != "p"]
-    evaluations = pristine(evaluate_expressions_alone, scenario, expressions) if expressions else {}
+    broken = {e: v for e, v in evaluations.items() if v[0] in ("ERROR", "INVALID")}
+    if broken:
+        # generated node expressions are valid by construction; the model has no input for them
+        fail(verdict, "valid-expression-does-not-evaluate-alone",
+             f"{request['rid']}: evaluating single node expressions alone with non-yielding peers gave {broken}")
+        return
     try:
         expected = {"ok": reference_model(op["ahb"], evaluations, op["soll"])}
     except ModelNotImplemented:
         expected = {"exc": "NotImplementedError"}
-    try:
-        sim, outcomes = run_requests(scenario, do_op)
-    except LIVENESS_ERRORS as error:
-        return liveness_verdict(error, scenario)
-    verdict = base_verdict(sim, scenario)
-    outcome = strip_msg(outcomes.get("r0", {"missing": True}))
-    verdict["observed"], verdict["completed"] = 1, 1 if "ok" in outcome else 0
     if "ok" in outcome:
         got = {"ok": project(outcome["ok"])}
-        verdict["probes"]["reported_nodes"] = len(got["ok"])
-        verdict["probes"]["forbidden_nodes"] = sum(1 for _, s in got["ok"] if s and s.startswith("IS_FORBIDDEN"))
-        verdict["probes"]["pruned_nodes"] = sum(1 for _ in walk(op["ahb"])) - len(got["ok"])
+        probes = verdict["probes"]
+        probes["reported_nodes"] = probes.get("reported_nodes", 0) + len(got["ok"])
+        probes["forbidden_nodes"] = probes.get("forbidden_nodes", 0) + sum(
+            1 for _, s in got["ok"] if s and s.startswith("IS_FORBIDDEN")
+        )
+        probes["pruned_nodes"] = probes.get("pruned_nodes", 0) + sum(1 for _ in walk(op["ahb"])) - len(got["ok"])
     else:
         got = outcome
-        verdict["probes"]["not_implemented_runs"] = 1 if outcome.get("exc") == "NotImplementedError" else 0
-    verdict["probes"]["soll_false_runs"] = 0 if op["soll"] else 1
+        if outcome.get("exc") == "NotImplementedError":
+            verdict["probes"]["not_implemented_runs"] = verdict["probes"].get("not_implemented_runs", 0) + 1
+    if not op["soll"]:
+        verdict["probes"]["soll_false_runs"] = verdict["probes"].get("soll_false_runs", 0) + 1
     if got == expected:
-        return verdict
+        return
     # classify the disagreement so that different defects get different fingerprints
     if "ok" in got and "ok" in expected:
         got_ids, expected_ids = [d for d, _ in got["ok"]], [d for d, _ in expected["ok"]]
@@ -168,4 +191,25 @@ def execute(scenario):
     else:
         clause = "outcome:exception-mismatch"
         detail = f"outcome {dumps(got)[:600]} but the reference model gives {dumps(expected)[:600]}"
-    return fail(verdict, clause, f"soll_is_required={op['soll']} entry={op['entry']}: {detail}")
+    fail(verdict, clause, f"{request['rid']} soll_is_required={op['soll']} entry={op['entry']}: {detail}")
+
+
+def execute(scenario):
+    evaluations = {}
+    for request in scenario["requests"]:
+        expressions = [n["e"] for n, _ in walk(request["op"]["ahb"]) if n["t"] != "p"]
+        evaluations[request["rid"]] = (
+            pristine(evaluate_expressions_alone, scenario, expressions, request["rid"]) if expressions else {}
+        )
+    try:
+        sim, outcomes = run_requests(scenario, do_op)
+    except LIVENESS_ERRORS as error:
+        return liveness_verdict(error, scenario)
+    verdict = base_verdict(sim, scenario)
+    verdict["observed"] = len(scenario["requests"])
+    verdict["completed"] = sum(1 for o in outcomes.values() if "ok" in o)
+    verdict["probes"]["validations"] = len(scenario["requests"])
+    for request in scenario["requests"]:
+        outcome = strip_msg(outcomes.get(request["rid"], {"missing": True}))
+        _judge(request, outcome, evaluations[request["rid"]], verdict)
+    return verdict
